@@ -128,12 +128,18 @@ impl Ctx {
         let replay_dir = self.verif.join("evidence").join("replay");
         let mut seen = BTreeSet::new();
         for f in &self.findings {
-            let is_known = known.iter().any(|k| k.0 == self.prop && k.1 == f.key);
+            // the same site seen in another feature configuration (`RULE@config/...`, thorough tier) is the same finding
+            let base_key = {
+                let (rule_part, rest) = f.key.split_once('/').unwrap_or((f.key.as_str(), ""));
+                let rule_part = rule_part.split('@').next().unwrap_or(rule_part);
+                if rest.is_empty() { rule_part.to_string() } else { format!("{}/{}", rule_part, rest) }
+            };
+            let is_known = known.iter().any(|k| k.0 == self.prop && (k.1 == f.key || k.1 == base_key));
             if !seen.insert(f.key.clone()) {
                 continue;
             }
             if is_known {
-                let what = known.iter().find(|k| k.0 == self.prop && k.1 == f.key).map(|k| k.2.clone()).unwrap_or_default();
+                let what = known.iter().find(|k| k.0 == self.prop && (k.1 == f.key || k.1 == base_key)).map(|k| k.2.clone()).unwrap_or_default();
                 println!("KNOWN-FINDING: property={} {} {} [{}] {}", self.prop, f.key, what, f.loc, f.msg);
                 known_hit.push(f.key.clone());
             } else {
